@@ -16,8 +16,8 @@ CVC5 = shutil.which("cvc5") or "/usr/bin/cvc5"
 Z3_OLD = "/usr/bin/z3" if os.path.exists("/usr/bin/z3") else None
 Z3_NEW = shutil.which("z3-new")
 
-BUDGET = {"quick": {"inproc_ms": 1500, "ext_s": 10, "retry_s": 40},
-          "thorough": {"inproc_ms": 5000, "ext_s": 60, "retry_s": 240}}
+BUDGET = {"quick": {"inproc_ms": 1500, "ext_s": 10, "retry_s": 40, "batch_s": 240},
+          "thorough": {"inproc_ms": 5000, "ext_s": 60, "retry_s": 240, "batch_s": 1500}}
 
 _pool = ThreadPoolExecutor(max_workers=6)
 _cli_pool = ThreadPoolExecutor(max_workers=16)
@@ -56,13 +56,197 @@ def to_smt2(formulas):
     return txt + "\n(check-sat)\n"
 
 
-def guarded_check(s, timeout_ms):
-    """s.check(); a z3 exception (resource limits) counts as unknown.  (A wall-clock watchdog through Context.interrupt() was tried
-    and removed: an interrupt that lands between two API calls crashed z3 5.1.)"""
+_RE_CACHE = {}
+
+
+def _has_re(t):
+    k = t.get_id()
+    c = _RE_CACHE.get(k)
+    if c is not None and c[0].eq(t):
+        return c[1]
+    found = False
+    seen = set()
+    st = [t]
+    while st and not found:
+        x = st.pop()
+        i = x.get_id()
+        if i in seen:
+            continue
+        seen.add(i)
+        if z3.is_app(x):
+            if x.decl().kind() == z3.Z3_OP_SEQ_IN_RE:
+                found = True
+            else:
+                st.extend(x.children())
+        elif z3.is_quantifier(x):
+            st.append(x.body())
+    _RE_CACHE[k] = (t, found)
+    return found
+
+
+def _enc(v):
+    """z3 model value -> picklable python structure (None when the value has a shape we do not transport)"""
+    if z3.is_string_value(v):
+        return ("s", v.as_string())
+    if z3.is_int_value(v):
+        return ("i", v.as_long())
+    if z3.is_rational_value(v):
+        return ("r", v.numerator_as_long(), v.denominator_as_long())
+    if z3.is_true(v) or z3.is_false(v):
+        return ("b", z3.is_true(v))
+    if z3.is_app(v) and v.sort().kind() == z3.Z3_DATATYPE_SORT:
+        args = [_enc(c) for c in v.children()]
+        if any(a is None for a in args):
+            return None
+        return ("c", v.decl().name(), args)
+    return None
+
+
+def _dec(e, sort):
+    k = e[0]
+    if k == "s":
+        return z3.StringVal(_unesc(e[1]))
+    if k == "i":
+        return z3.IntVal(e[1])
+    if k == "r":
+        return z3.RealVal("%d/%d" % (e[1], e[2]))
+    if k == "b":
+        return z3.BoolVal(e[1])
+    if k == "c":
+        for i in range(sort.num_constructors()):
+            c = sort.constructor(i)
+            if c.name() == e[1]:
+                if c.arity() == 0:
+                    return c()
+                return c(*[_dec(a, c.domain(j)) for j, a in enumerate(e[2])])
+    raise ValueError("cannot rebuild %r" % (e,))
+
+
+def _unesc(t):
+    return re.sub(r"\\u\{([0-9a-fA-F]+)\}", lambda m: chr(int(m.group(1), 16)), t)
+
+
+def _const_decls(formulas):
+    out = {}
+    seen = set()
+    st = list(formulas)
+    while st:
+        x = st.pop()
+        i = x.get_id()
+        if i in seen:
+            continue
+        seen.add(i)
+        if z3.is_quantifier(x):
+            st.append(x.body())
+        elif z3.is_app(x):
+            if x.num_args() == 0 and x.decl().kind() == z3.Z3_OP_UNINTERPRETED:
+                out[x.decl().name()] = x
+            else:
+                st.extend(x.children())
+    return out
+
+
+def guarded_check(s, timeout_ms, want_model=True):
+    """s.check() that cannot hang; returns z3.sat / z3.unsat / z3.unknown and leaves the model (when asked for) in ``s.pyvc_model``.
+    z3's own `timeout` is not honoured inside some regular-expression loops (observed: a 150 ms feasibility query that ran for 40
+    minutes) and Context.interrupt() crashed z3 5.1 in exactly that state, so a query with regular memberships is solved in a FORKED
+    child (copy-on-write image of this process) that is killed after 3x the budget + 2 s: no answer counts as unknown.  The child
+    sends back the verdict and, for `sat`, the values of the constants; the parent rebuilds the model by pinning those values and
+    re-checking the query (an evaluation, not a search)."""
+    s.pyvc_model = None
+    asserts = list(s.assertions())
+    if not any(_has_re(a) for a in asserts):
+        try:
+            r = s.check()
+        except z3.Z3Exception:
+            return z3.unknown
+        if r == z3.sat and want_model:
+            s.pyvc_model = s.model()
+        return r
+    import pickle
+    import select
+    rfd, wfd = os.pipe()
+    pid = os.fork()
+    if pid == 0:
+        payload = pickle.dumps(("k", None))
+        try:
+            os.close(rfd)
+            res = s.check()
+            if res == z3.unsat:
+                payload = pickle.dumps(("u", None))
+            elif res == z3.sat:
+                pins = {}
+                if want_model:
+                    m = s.model()
+                    for d in m.decls():
+                        if d.arity() == 0:
+                            e = _enc(m[d])
+                            if e is not None:
+                                pins[d.name()] = e
+                payload = pickle.dumps(("s", pins))
+        except BaseException:
+            pass
+        try:
+            os.write(wfd, payload)
+        finally:
+            os._exit(0)
+    os.close(wfd)
+    buf = b""
+    deadline = time.time() + 3.0 * timeout_ms / 1000.0 + 2.0
     try:
-        return s.check()
-    except z3.Z3Exception:
+        while True:
+            left = deadline - time.time()
+            if left <= 0:
+                buf = b""
+                break
+            ready, _, _ = select.select([rfd], [], [], left)
+            if not ready:
+                buf = b""
+                break
+            chunk = os.read(rfd, 1 << 16)
+            if not chunk:
+                break
+            buf += chunk
+    finally:
+        os.close(rfd)
+        if not buf:
+            WATCHDOG["fired"] += 1
+            try:
+                os.kill(pid, 9)
+            except OSError:
+                pass
+        try:
+            os.waitpid(pid, 0)
+        except OSError:
+            pass
+    if not buf:
         return z3.unknown
+    try:
+        verdict, pins = pickle.loads(buf)
+    except Exception:
+        return z3.unknown
+    if verdict == "u":
+        return z3.unsat
+    if verdict != "s":
+        return z3.unknown
+    if not want_model:
+        return z3.sat
+    # rebuild the model: pin the constants, re-check (bounded by z3's timeout; a pinned query is an evaluation)
+    decls = _const_decls(asserts)
+    s2 = z3.Solver()
+    s2.set("timeout", int(max(timeout_ms, 2000)))
+    for a in asserts:
+        s2.add(a)
+    try:
+        for n, e in pins.items():
+            c = decls.get(n)
+            if c is not None:
+                s2.add(c == _dec(e, c.sort()))
+        if s2.check() == z3.sat:
+            s.pyvc_model = s2.model()
+    except (z3.Z3Exception, ValueError):
+        pass
+    return z3.sat
 
 
 WATCHDOG = {"fired": 0}
@@ -78,7 +262,7 @@ def check_inproc(formulas, timeout_ms):
     dt = time.time() - t
     _note("z3-5.1-api", dt)
     if r == z3.sat:
-        return Result("sat", s.model(), "z3-5.1-api", dt)
+        return Result("sat", s.pyvc_model, "z3-5.1-api", dt)
     if r == z3.unsat:
         return Result("unsat", None, "z3-5.1-api", dt)
     try:
@@ -275,7 +459,7 @@ def _merge_models(formulas, comps, results, timeout_ms):
                 except z3.Z3Exception:
                     pass
     if guarded_check(s, timeout_ms) == z3.sat:
-        return s.model()
+        return s.pyvc_model
     return None
 
 
@@ -363,7 +547,13 @@ def _check_many_whole(queries, tier="quick", want_model=True):
     out = [None] * len(queries)
     b = BUDGET[tier]
     left = []
+    t_start = time.time()
+    cap = b.get("batch_s", 300)
     for i, q in enumerate(queries):
+        if time.time() - t_start > cap:
+            # a batch that needs more than its wall-clock share is cut off: the remaining queries stay undecided (never `sat`/`unsat`)
+            out[i] = Result("unknown", None, "portfolio", 0.0, "solver budget of the batch (%d s) exhausted" % cap)
+            continue
         r = check_inproc(q, b["inproc_ms"])
         if r.status == "unknown":
             left.append(i)
@@ -373,9 +563,18 @@ def _check_many_whole(queries, tier="quick", want_model=True):
         futs = {}
         for i in left:
             futs[i] = _pool.submit(_ext_with_retry, to_smt2(queries[i]), tier)
+        attempts = 0
         for i, f in futs.items():
+            if time.time() - t_start > 2 * cap:
+                f.cancel()
+                if f.cancelled():
+                    out[i] = Result("unknown", None, "portfolio", 0.0, "solver budget of the batch (%d s) exhausted" % cap)
+                    continue
             r2 = f.result()
-            if r2.status == "sat":
+            if r2.status == "sat" and attempts < 3:
+                # model search for an externally-sat query is expensive (z3 already gave up on it once): a few per batch are enough
+                # to obtain a counterexample; the others stay `sat` without a model
+                attempts += 1
                 r2 = _finish_sat(queries[i], r2, tier)
             out[i] = r2
     return out
